@@ -6,8 +6,13 @@
   the Gallina model, the property oracles (P) look at the implementation's observations only.
 * Gen: seeded generator of histories (names from a pool of 4 + the invalid names, every operation with
   every applicable invalid argument).
-* oracles: C11 (a raising call leaves the description unchanged; base relation acyclic, linearisable;
-  names valid) and C12 (pairwise disjoint containers, dir() == containers, precedence, self-checks).
+* oracles: C11 (a raising call leaves the description unchanged; after every ACCEPTED call the inheritance
+  structure is well-formed - wf_oracle, clauses WF_CLAUSES; base relation acyclic, linearisable; names valid)
+  and C12 (pairwise disjoint containers, dir() == containers, precedence, self-checks).
+* Gen.override_history: the scenario "rename around an override" (base cells, sub space, override, sub spaces
+  below, RenameCells on the override / the base / a plain derived cells with free, taken, invalid names).
+* shrink / probe: a failing history is minimised on the implementation; when the correspondence (T) breaks and
+  (P) is silent, follow-up operations around the disagreeing histories are run through the (P) oracle.
 * emit: histories + observations as Coq terms for Names/Tie.v.
 """
 import os, json, copy, glob, re, keyword
@@ -648,31 +653,115 @@ class Gen:
         n = r.choice(names) if names and r.random() < 0.75 else r.choice(POOL + SYS + INVALID[:2])
         return ["DelAttr", s, n]
 
+    def push(self, mir, ops, op, thin=True):
+        """append op to ops unless the trigger of a recorded defect fires (or the draw is thinned out);
+        returns (mirror after the op, ideal code or None when the op was not appended)"""
+        code, new = mir.plan(op)
+        trig = mir.triggers(op, code, new)
+        if trig:
+            for t in trig:
+                self.filtered[t] = self.filtered.get(t, 0) + 1
+            return mir, None
+        if self.uniq_space_names and code == ACCEPTED and op[0] in ("NewSpace", "RenameSpace") and \
+                (op[2] in {p[-1] for p in mir.sp}):
+            self.filtered["N9"] = self.filtered.get("N9", 0) + 1
+            return mir, None
+        # keep the share of rejected operations around one third
+        if thin and code != ACCEPTED and self.rng.random() < 0.35:
+            return mir, None
+        key = "%s/%s" % (op[0], CODE_NAMES[code])
+        self.matrix[key] = self.matrix.get(key, 0) + 1
+        ops.append(op)
+        return (new if new is not None else mir), code
+
     def history(self, n):
         mir = Mirror()
         ops = []
         tries = 0
         while len(ops) < n and tries < n * 30:
             tries += 1
-            op = self.draw(mir)
-            code, new = mir.plan(op)
-            trig = mir.triggers(op, code, new)
-            if trig:
-                for t in trig:
-                    self.filtered[t] = self.filtered.get(t, 0) + 1
-                continue
-            if self.uniq_space_names and code == ACCEPTED and op[0] in ("NewSpace", "RenameSpace") and \
-                    (op[2] in {p[-1] for p in mir.sp}):
-                self.filtered["N9"] = self.filtered.get("N9", 0) + 1
-                continue
-            # keep the share of rejected operations around one third
-            if code != ACCEPTED and self.rng.random() < 0.35:
-                continue
-            key = "%s/%s" % (op[0], CODE_NAMES[code])
-            self.matrix[key] = self.matrix.get(key, 0) + 1
-            ops.append(op)
-            if new is not None:
-                mir = new
+            mir, _ = self.push(mir, ops, self.draw(mir))
+        return ops
+
+    def override_history(self):
+        """the scenario 'rename around an override': a base space with cells, a sub space, (mostly) an override of a
+        base cells in the sub space (formula assignment on the derived cells, sometimes an input too), 0-3 further sub
+        spaces below, random edits in between; then 2-5 RenameCells aimed at the overriding cells, at the base cells
+        and at plain derived cells, with free, taken and invalid target names; then a few random edits on the result.
+        Every operation passes the same defect-trigger filter as the random histories."""
+        r = self.rng
+        mir = Mirror()
+        ops = []
+
+        def some(k):
+            nonlocal mir
+            for _ in range(k):
+                mir, _ = self.push(mir, ops, self.draw(mir))
+
+        def must(op):
+            nonlocal mir
+            mir, code = self.push(mir, ops, op, thin=False)
+            return code == ACCEPTED
+
+        names = list(POOL)
+        r.shuffle(names)
+        base = (names[0],)
+        if not must(["NewSpace", [], names[0], []]):
+            return self.history(10)
+        cn = [r.choice(POOL)] + ([r.choice(POOL)] if r.random() < 0.4 else [])
+        for c in cn:
+            must(["NewCells", list(base), c, r.choice([["lam", r.randrange(100)], ["def", c, r.randrange(100)], ["none"]])])
+        cn = [c for c in cn if mir.def_cells(base, c)]
+        some(r.choice([0, 0, 1, 2]))
+        chain = []
+        parent = list(r.choice([(), (), base]))
+        if must(["NewSpace", parent, names[1], [list(base)] + ([list(r.choice(list(mir.sp)))] if r.random() < 0.15 else [])]):
+            chain.append(tuple(parent) + (names[1],))
+        for k in range(r.choice([0, 1, 1, 2, 3])):
+            if not chain:
+                break
+            parent = list(r.choice([()] + list(mir.sp)))
+            nm = r.choice(names[2:] + ["e"])
+            bs = [list(r.choice(chain))] + ([list(r.choice(chain + [base]))] if r.random() < 0.2 else [])
+            if must(["NewSpace", parent, nm, bs]):
+                chain.append(tuple(parent) + (nm,))
+            some(r.choice([0, 0, 1]))
+        live = lambda: [p for p in [base] + chain if p in mir.sp]
+        # the override(s)
+        for p in chain:
+            if p in mir.sp and r.random() < (0.85 if p == chain[0] else 0.3):
+                cs = [c for c in mir.cells_names(p) if not mir.def_cells(p, c)]
+                if cs:
+                    c = r.choice(cs)
+                    must(["SetFormula", list(p), c, r.choice([["lam", r.randrange(100)], ["def", c, r.randrange(100)]])])
+                    if r.random() < 0.3:
+                        must(["SetAttr", list(p), c, r.randrange(100)])
+        some(r.choice([0, 0, 1, 2, 3]))
+        # the renames
+        for _ in range(r.choice([2, 3, 3, 4, 5])):
+            sps = live()
+            if not sps:
+                break
+            over = [(p, c) for p in sps for c in mir.cells_names(p)
+                    if mir.def_cells(p, c) and any(mir.def_cells(b, c) for b in mir.ancs(p))]
+            x = r.random()
+            if over and x < 0.55:
+                p, c = r.choice(over)
+            else:
+                p = r.choice(sps)
+                cs = mir.cells_names(p)
+                c = r.choice(cs) if cs else r.choice(POOL)
+            free = [n for n in POOL + ["e"] if mir.can_rename_cells(p, n)]
+            y = r.random()
+            if free and y < 0.6:
+                new = r.choice(free)
+            elif y < 0.85:
+                new = r.choice(POOL)
+            else:
+                new = r.choice(INVALID)
+            must(["RenameCells", list(p), c, new])
+            some(r.choice([0, 0, 1]))
+        some(r.choice([0, 2, 4, 6]))
         return ops
 
 
@@ -707,10 +796,77 @@ def strip_obs(o):
     return o
 
 
+WF_CLAUSES = [
+    "W1 members: for every space S and every space B of S.bases (the linearised bases): B is a live space, and every cells / "
+    "reference name B holds (defined or derived) is held by S as the same kind of member (S.cells / S._own_refs, getattr gives a "
+    "cells / a value)",
+    "W2 derived members: every member of S flagged derived is held by some space of S.bases and DEFINED by some space of S.bases "
+    "(nothing is derived from nothing); every flag is a readable boolean",
+    "W3 graph: the nodes of the space manager's inheritance graph are exactly the live spaces of the tree (this tree does not derive "
+    "child spaces: a nested space is a member of its parent only, so the clause on child spaces is this one), its edges are exactly "
+    "the (direct base, space) pairs, no space is its own direct base",
+    "W4 self-checks: model._impl._check_sanity() and mxsys._check_sanity() do not fail (an AssertionError is ignored in states where "
+    "two spaces share a bare name: finding N9, the self-check itself is wrong there)",
+]
+
+
+def wf_oracle(o):
+    """well-formedness of the inheritance structure in ONE description of the implementation's state (independent of
+    the Coq model and of the Mirror); list of violated clauses"""
+    bad = []
+    sp = o["spaces"]
+    kinds = (("cells", "cells"), ("own", "reference"))
+    for p, d in sp.items():
+        for b in d["bases"]:
+            if b not in sp:
+                bad.append("W1 space %s has the base %s which is not a live space" % (p, b))
+                continue
+            for kind, what in kinds:
+                for n in sp[b][kind]:
+                    if n not in d[kind]:
+                        bad.append("W1 base %s of %s holds the %s %s but %s holds no such %s (%s of %s: %r)"
+                                   % (b, p, what, n, p, what, what, p, sorted(d[kind])))
+                    else:
+                        a = d["attrs"].get(n, "<absent>")
+                        ok = a == "cells" if kind == "cells" else (isinstance(a, list) and a[:1] == ["v"])
+                        if not ok:
+                            bad.append("W1 base %s of %s holds the %s %s but %s.%s is %r" % (b, p, what, n, p, n, a))
+        for kind, what in kinds:
+            for n, rec in d[kind].items():
+                if rec[0] is True:
+                    have = [b for b in d["bases"] if b in sp and n in sp[b][kind]]
+                    if not have:
+                        bad.append("W2 %s.%s is a derived %s but no base of %s %r holds it" % (p, n, what, p, d["bases"]))
+                    elif not any(sp[b][kind][n][0] is False for b in have):
+                        bad.append("W2 %s.%s is a derived %s but no base of %s defines it (it is derived in %r)" % (p, n, what, p, have))
+                elif rec[0] is not False:
+                    bad.append("W2 the derived flag of %s.%s cannot be read: %r" % (p, n, rec[0]))
+        if p in d["direct"]:
+            bad.append("W3 space %s is its own direct base" % p)
+    g = o.get("graph")
+    if not isinstance(g, dict):
+        bad.append("W3 the inheritance graph cannot be read: %r" % (g,))
+    else:
+        if sorted(g["nodes"]) != sorted(sp):
+            bad.append("W3 graph nodes %r != live spaces %r (only in the graph: %r, only in the tree: %r)"
+                       % (sorted(g["nodes"]), sorted(sp), sorted(set(g["nodes"]) - set(sp)), sorted(set(sp) - set(g["nodes"]))))
+        edges = sorted([b, p] for p, d in sp.items() for b in d["direct"])
+        if sorted(g["edges"]) != edges:
+            bad.append("W3 graph edges %r != (direct base, space) pairs %r" % (sorted(g["edges"]), edges))
+    lastnames = [p.split(".")[-1] for p in sp]
+    dup = len(lastnames) != len(set(lastnames))
+    for key in ("sys_sanity", "model_sanity"):
+        if o[key] != "ok" and not (dup and o[key].startswith("AssertionError")):
+            bad.append("W4 %s fails: %s" % (key, o[key]))
+    return bad
+
+
 def c11_oracle(ops, r):
     """list of violated clauses of C11 on this run"""
     bad = []
     prev = strip_obs(r["obs0"])
+    for w in wf_oracle(r["obs0"]):
+        bad.append("new model: " + w)
     for i, (op, st) in enumerate(zip(ops, r["steps"])):
         o = st["obs"]
         if o is None:
@@ -719,6 +875,11 @@ def c11_oracle(ops, r):
         so = strip_obs(o)
         if st["out"] != ACCEPTED and so != prev:
             bad.append("step %d %r raised (%s) but changed the model: %s" % (i, op, st["exc"], diff(prev, so)))
+        # an ACCEPTED edit is applied completely: the inheritance structure is well-formed afterwards (a rejected one
+        # has changed nothing - the clause above - so the structure is the one checked before)
+        if st["out"] == ACCEPTED:
+            for w in wf_oracle(o)[:4]:
+                bad.append("step %d %r was accepted but the inheritance structure is malformed afterwards: %s" % (i, op, w))
         # base relation: acyclic, every space has a linearisation (space.bases could be computed)
         g = {p: d["direct"] for p, d in o["spaces"].items()}
         for p in g:
@@ -1034,11 +1195,150 @@ def canon(ops):
     return json.dumps(ops, sort_keys=True)
 
 
+def rename_focus(ops, r):
+    """what every RenameCells of the run was aimed at, read from the IMPLEMENTATION's description before the
+    operation: <target>/<new name>/<outcome>, target = override (defined in the space, a base holds the name too;
+    +subs when the space has sub spaces) | base (defined, no base holds it, sub spaces hold it) | derived | lone
+    (defined, nothing around) | absent; new name = free (valid, unknown to the space and its sub spaces) | taken |
+    invalid"""
+    out = []
+    prev = r["obs0"]
+    for op, st in zip(ops, r["steps"]):
+        if op[0] == "RenameCells" and prev is not None and ".".join(op[1]) in prev["spaces"]:
+            sp = prev["spaces"]
+            p = ".".join(op[1])
+            d = sp[p]
+            subs = [q for q, e in sp.items() if p in e["bases"]]
+            c = d["cells"].get(op[2])
+            if c is None:
+                tgt = "absent"
+            elif c[0] is True:
+                tgt = "derived"
+            elif any(op[2] in sp[b]["cells"] for b in d["bases"] if b in sp):
+                tgt = "override+subs" if subs else "override"
+            elif subs:
+                tgt = "base"
+            else:
+                tgt = "lone"
+            if not is_valid_name(op[3]):
+                nm = "invalid"
+            elif any(op[3] in sp[q]["dir"] for q in [p] + subs):
+                nm = "taken"
+            else:
+                nm = "free"
+            out.append("%s/%s/%s" % (tgt, nm, "accepted" if st["out"] == ACCEPTED else "rejected"))
+        prev = st["obs"]
+    return out
+
+
+def first_step(bad):
+    ks = [int(m.group(1)) for b in bad for m in [re.match(r"step (-?\d+) ", b)] if m]
+    return min(ks) if ks else None
+
+
+def shrink(ops, oracle, rounds=30):
+    """greedy minimisation of a failing history on the implementation: cut after the first failing step, then drop
+    operations as long as the oracle still fails; returns (ops, violated clauses, driver result) or (ops, None, None)"""
+    run = lambda hl: fw.run_driver("names", [{"kind": "hist", "ops": h} for h in hl], chunk=16)
+    cur = list(ops)
+    r = run([cur])[0]
+    bad = oracle(cur, r)
+    if not bad:
+        return ops, None, None
+    k = first_step(bad)
+    if k is not None and 0 <= k < len(cur) - 1:
+        r2 = run([cur[:k + 1]])[0]
+        b2 = oracle(cur[:k + 1], r2)
+        if b2:
+            cur, r, bad = cur[:k + 1], r2, b2
+    for _ in range(rounds):
+        if len(cur) <= 1:
+            break
+        cands = [cur[:i] + cur[i + 1:] for i in range(len(cur))]
+        rs = run(cands)
+        ok = [i for i, (c, rr) in enumerate(zip(cands, rs)) if oracle(c, rr)]
+        if not ok:
+            break
+        allc = [op for i, op in enumerate(cur) if i not in set(ok)]
+        ra = run([allc])[0] if len(ok) > 1 and allc else None
+        if ra is not None and oracle(allc, ra):
+            cur, r, bad = allc, ra, oracle(allc, ra)
+        else:
+            i = ok[-1]
+            cur, r, bad = cands[i], rs[i], oracle(cands[i], rs[i])
+    return cur, bad, r
+
+
+def probe(histories, oracle, rng, per=160):
+    """the correspondence broke on these histories but the property oracle was silent on them: run, through the
+    property oracle, the prefix up to the first operation whose outcome class differs from the ideal one, extended by
+    one or two follow-up operations aimed at the spaces and members that exist then (renames, formula assignments,
+    deletions, new members, base edits).  Follow-ups that fire the trigger of a recorded defect are left out."""
+    cases = []
+    for h in histories:
+        codes = ideal_codes(h)
+        r0 = fw.run_driver("names", [{"kind": "hist", "ops": h}])[0]
+        k = next((i for i, (st, (c, _)) in enumerate(zip(r0["steps"], codes)) if st["out"] != c), len(h) - 1)
+        prefix = h[:k + 1]
+        st = r0["steps"][min(k, len(r0["steps"]) - 1)]["obs"]
+        if st is None:
+            continue
+        mir = Mirror()
+        for op in prefix:
+            _, new = mir.plan(op)
+            if new is not None:
+                mir = new
+        cands = []
+        sps = [q.split(".") for q in st["spaces"]]
+        for q, d in st["spaces"].items():
+            path = q.split(".")
+            for n in list(d["cells"]) + POOL:
+                cands.append(["SetFormula", path, n, ["lam", 7]])
+                cands.append(["DelAttr", path, n])
+                cands.append(["NewCells", path, n, ["lam", 8]])
+                cands.append(["SetAttr", path, n, 9])
+                for new in POOL[:3]:
+                    cands.append(["RenameCells", path, n, new])
+            for b in sps:
+                cands.append(["AddBases", path, [b]])
+                cands.append(["RemoveBases", path, [b]])
+                cands.append(["NewSpace", [], "zz", [path, b]])
+            cands.append(["DelAttr", path[:-1], path[-1]])
+            cands.append(["RenameSpace", path, "zz"])
+        keep = []
+        for op in cands:
+            try:
+                code, new = mir.plan(op)
+                if mir.triggers(op, code, new):
+                    continue
+            except Exception:
+                pass
+            keep.append(op)
+        rng.shuffle(keep)
+        for op in keep[:per]:
+            cases.append(prefix + [op])
+        for _ in range(per // 2):
+            if len(keep) >= 2:
+                cases.append(prefix + rng.sample(keep, 2))
+    if not cases:
+        return [], 0
+    cases = [json.loads(c) for c in sorted({canon(h) for h in cases})]
+    res = fw.run_driver("names", [{"kind": "hist", "ops": h} for h in cases], chunk=40)
+    found = []
+    for h, r in zip(cases, res):
+        bad = oracle(h, r)
+        if bad:
+            found.append({"case": {"ops": h}, "detail": "found by probing around a correspondence mismatch: " + "; ".join(bad[:4]),
+                          "script": script_for(h), "outcomes": [[s["out"], s["exc"]] for s in r["steps"]]})
+    found.sort(key=lambda f: len(f["case"]["ops"]))
+    return found[:5], len(cases)
+
+
 def run_check(prop, tier, seed, rng):
     out = fw.Outcome()
     oracle = ORACLE[prop]
     witnesses, corpus = load_corpus(prop)
-    nrand, nmat, nuniq = (260, 40, 60) if tier == "quick" else (3200, 500, 700)
+    nrand, nmat, nuniq, nover = (260, 40, 60, 90) if tier == "quick" else (3200, 500, 700, 1000)
     g = Gen(rng)
     hs = [d["ops"] for _, d in corpus]
     kinds = ["corpus"] * len(hs)
@@ -1053,8 +1353,13 @@ def run_check(prop, tier, seed, rng):
     mh, gm = matrix_histories(rng, nmat)
     hs += mh
     kinds += ["matrix"] * len(mh)
-    cases = [{"kind": "hist", "ops": h} for h in hs]
     vnames = valid_name_cases(rng, 400 if tier == "quick" else 4000)
+    # drawn last, so that the histories above are the ones the seed gave before this scenario existed
+    go = Gen(rng)
+    for _ in range(nover):
+        hs.append(go.override_history())
+        kinds.append("rename-around-override")
+    cases = [{"kind": "hist", "ops": h} for h in hs]
     cases.append({"kind": "valid", "names": vnames})
     wcases = [{"kind": "hist", "ops": d["ops"]} for _, d in witnesses]
     res = fw.run_driver("names", cases + wcases, chunk=12 if tier == "quick" else 40)
@@ -1064,12 +1369,25 @@ def run_check(prop, tier, seed, rng):
 
     # ---- (P) on the implementation's own observations
     nsteps = 0
-    for h, r in zip(hs, res):
+    focus = {}
+    focus_kind = {}
+    for h, r, kd in zip(hs, res, kinds):
         nsteps += len(r["steps"])
+        for k in rename_focus(h, r):
+            focus[k] = focus.get(k, 0) + 1
+            if k.startswith("override") and "/free/" in k:
+                focus_kind[kd] = focus_kind.get(kd, 0) + 1
         bad = oracle(h, r)
         if bad:
             out.p_failures.append({"case": {"ops": h}, "detail": "; ".join(bad[:4]), "script": script_for(h),
                                    "outcomes": [[s["out"], s["exc"]] for s in r["steps"]]})
+    # shortest failures first; the first ones are minimised (the history as generated is kept beside the minimised one)
+    out.p_failures.sort(key=lambda f: len(f["case"]["ops"]))
+    for f in out.p_failures[:3]:
+        small, sbad, sr = shrink(f["case"]["ops"], oracle)
+        if sbad:
+            f.update({"generated_ops": f["case"]["ops"], "case": {"ops": small}, "detail": "; ".join(sbad[:4]),
+                      "script": script_for(small), "outcomes": [[s["out"], s["exc"]] for s in sr["steps"]]})
     # ---- (T) the Gallina step on the same histories
     idx = [i for i, r in enumerate(res) if all(emittable(s["obs"]) for s in r["steps"]) and len(r["steps"]) == len(hs[i])]
     terms = [cterm(hs[i], res[i]) for i in idx]
@@ -1093,6 +1411,13 @@ def run_check(prop, tier, seed, rng):
         if i not in set(idx):
             out.tie_mismatches.append({"case": {"ops": hs[i]}, "outcomes": [[s["out"], s["exc"]] for s in r["steps"]],
                                        "detail": "the implementation's state cannot be expressed in the model's vocabulary (observation failed or foreign values)"})
+    # ---- (T) disagrees and (P) found nothing: look harder around the disagreeing histories
+    nprobe = 0
+    if out.tie_mismatches and not out.p_failures:
+        found, nprobe = probe([t["case"]["ops"] for t in out.tie_mismatches if "ops" in t["case"]][:4], oracle, rng)
+        out.p_failures += found
+        out.notes.append("correspondence mismatch without a property failure: %d probe histories around the disagreeing cases "
+                         "run through the property oracle, %d failed" % (nprobe, len(found)))
     out.evaluations = len(hs) + len(vnames)
     out.traces_validated = len(idx) - len(badidx) + (len(vnames) - len(vbad))
     # non-trivial for the property: the history contains a rejected operation applied to a non-empty model (C11)
@@ -1109,7 +1434,10 @@ def run_check(prop, tier, seed, rng):
                 "cells.rename / space.rename / add_bases / remove_bases / setattr / delattr on spaces and on the model) over a "
                 "pool of 4 names + 6 invalid names, nested spaces, arguments steered by a Python mirror of the ideal model so that "
                 "about one third of the operations is rejected; plus the rejection-reason x operation matrix: every operation with "
-                "every argument class appended to random prefixes; plus ASCII strings for is_valid_name. Distinct by the JSON of the "
+                "every argument class appended to random prefixes; plus the scenario 'rename around an override' (base cells, sub "
+                "space, formula assignment on the derived cells = override, 0-3 sub spaces below, then 2-5 cells.rename aimed at the "
+                "override / the base cells / plain derived cells with free, taken and invalid new names, random edits in between and "
+                "after); plus ASCII strings for is_valid_name. Distinct by the JSON of the "
                 "operation list; non-trivial = " + ("a rejected operation (other than a bad path) on a non-empty model" if prop == "C11"
                 else "some space holds a derived member or shadows a model-level reference"))
     # ---- witnesses of the recorded defects
@@ -1120,11 +1448,11 @@ def run_check(prop, tier, seed, rng):
         if not bad:
             out.notes.append("witness %s no longer fails" % name)
     filt = {}
-    for gg in (g, gu, gm):
+    for gg in (g, gu, gm, go):
         for k, v in gg.filtered.items():
             filt[k] = filt.get(k, 0) + v
     matrix = {}
-    for gg in (g, gu, gm):
+    for gg in (g, gu, gm, go):
         for k, v in gg.matrix.items():
             matrix[k] = matrix.get(k, 0) + v
     implm = {}
@@ -1135,6 +1463,14 @@ def run_check(prop, tier, seed, rng):
     out.distribution = {"histories": {k: kinds.count(k) for k in sorted(set(kinds))}, "operations_run": nsteps,
                         "is_valid_name_strings": len(vnames),
                         "operation_x_outcome_on_the_implementation": dict(sorted(implm.items())),
+                        "rename_cells_target/new_name/outcome_on_the_implementation": dict(sorted(focus.items())),
+                        "rename_of_an_overriding_cells": sum(v for k, v in focus.items() if k.startswith("override")),
+                        "rename_of_an_overriding_cells_to_a_free_name": sum(v for k, v in focus.items() if k.startswith("override") and "/free/" in k),
+                        "rename_of_an_overriding_cells_to_a_free_name_by_history_kind": dict(sorted(focus_kind.items())),
+                        "property_oracle_clauses": (["R rejected => unchanged: the description after a raising call equals the one before"]
+                                                    + WF_CLAUSES + ["C3: base relation acyclic, space.bases == C3 order of the direct bases",
+                                                                    "N: names of spaces and cells are valid identifiers"]) if prop == "C11" else
+                                                   ["C12 clauses (nameslib.c12_oracle)"],
                         "draws_filtered_by_defect_trigger": dict(sorted(filt.items()))}
     out.notes.append("defect triggers avoided by the generator (decidable predicates on ideal state + operation, nameslib.Mirror.triggers): "
                      "D2b (C03) D3 D11 D12 D13 D23 D34 N1 N2 N3 N4 N5 N6 N7 N8 N10; N9 (the self-check itself fails when two spaces of the tree share a "
